@@ -87,6 +87,12 @@ func RunCase(id string, c Case, zones []string, maxPerm int, w *abs.Writer) (cra
 	}
 	rec := Record{Case: id, Pool: c.Pool, Msg: c.Msg}
 	n := len(msg.Ents)
+	// every third case is parsed (in all its orders and zones) with the optional trip-level fields of TripUpdate set:
+	// its own timestamp and delay are no part of any surfaced value
+	if h := len(id) + int(id[len(id)-1]); h%3 == 0 {
+		TripUpdateTimestamp, TripUpdateDelay = 1699990000, 120
+		defer func() { TripUpdateTimestamp, TripUpdateDelay = 0, 0 }()
+	}
 	orders := [][]int{identity(n)}
 	if n >= 2 && n <= maxPerm && len(msg.Fuse) == 0 {
 		orders = Permutations(n)
